@@ -1,5 +1,5 @@
 """C01 -- opening a mailbox replays every stored message, and nothing else."""
-from ..events import (all_events, is_app_id, is_own_mailbox_id, is_client_value,
+from ..events import (is_conn_side, all_events, is_app_id, is_own_mailbox_id, is_client_value,
                       construct_of, handler_paths, handler_for, frame_type,
                       frame_fields, flat_events)
 from ..report import render_path
@@ -7,6 +7,8 @@ from ..terms import show, plain, is_const, strip_wrappers
 from .. import e3 as e3mod
 from .. import e4 as e4mod
 from ..repo import AnalysisError
+
+from . import shared
 
 LEVEL = "other"
 EXPLANATION = (
@@ -19,6 +21,7 @@ EXPLANATION = (
     "delete their mailbox row, by the same key; (live) the INSERT into the message "
     "log is reachable only through handles that the registry rule U keeps valid. "
     "Not decided: that SQLite returns what was stored, delivery by Autobahn.")
+EXPLANATION += ' Also decided: every entry point exits with the channel DB clean (what was acknowledged survives a restart), no start-up statement touches the message log, and the replay select returns every matching row as stored.'
 
 
 def replay_select(ctx, p, loop):
@@ -60,6 +63,10 @@ def _walk(t):
 
 def run(ctx):
     model = ctx.model
+    shared.r_durable(ctx, "R01.durable", ("chan",),
+                     'after a restart the stored messages (or the deletion of a mailbox) are not what the clients were told')
+    shared.r_startup(ctx, "R01.startup", ('messages',),
+                     'stored messages are removed or changed by something other than the deletion of their mailbox')
     interp = model.interp
     ctx.rule("R01.key", "the replay loop is fed by one SELECT on `messages` keyed "
              "exactly by own app id AND own mailbox id (no LIMIT, no other filter), "
@@ -100,11 +107,11 @@ def run(ctx):
             eq = sel["src"]["where_eq"]
             ok = st.table == "messages" and eq is not None and \
                 set(eq) == {"app_id", "mailbox_id"} and is_app_id(eq["app_id"]) and \
-                is_own_mailbox_id(eq["mailbox_id"]) and st.limit is None
+                is_own_mailbox_id(eq["mailbox_id"]) and st.plain_rows
             ctx.ob("R01.key", "%s <- %s" % (cons, construct_of(sel)), ok, sel,
                    "" if ok else "replay must read `messages` WHERE app_id=<own app> AND "
                    "mailbox_id=<own mailbox> and nothing else; found %s%s" % (
-                       st.normalized(), " LIMIT" if st.limit is not None else ""))
+                       st.normalized(), "" if st.plain_rows else " [LIMIT / GROUP BY / DISTINCT / computed columns: not every stored row is returned as stored]"))
             # unconditional collection
             lo_hi = None
             for a in sources:
@@ -153,7 +160,7 @@ def run(ctx):
                     return False
                 checks = [
                     ("side", s.get("side") is not None and s["side"][0] == "attr" and
-                     s["side"][2] == "_side" and s["side"][1][1] == "WebSocketServer"),
+                     is_conn_side(s["side"])),
                     ("phase", msgfield(s.get("phase"), "phase")),
                     ("body", msgfield(s.get("body"), "body")),
                     ("msg_id", msgfield(s.get("msg_id"), "id")),
@@ -212,7 +219,7 @@ def run(ctx):
     e4 = e4mod.get(model)
     n4 = 0
     for f in e4.findings:
-        if f.kind == "rule_u" and "AppNamespace._mailboxes" in f.construct:
+        if f.kind == "rule_u" and model.names.reg_name("mailboxes") in f.construct:
             n4 += 1
             ctx.ob("R01.live", f.construct, f.ok, f.site, f.detail +
                    ("" if f.ok else " -- a message added through the stale handle is "
